@@ -161,6 +161,29 @@ class JobMarkx(JobMark):
     __xpmid__ = "u.jobmarkx"
 
 
+class Dbox(Config):
+    """A parameter whose default is itself a configuration (with a generated path and ignored parameters below it)."""
+    __xpmid__ = "u.dbox"
+    v: Param[int] = 0
+    d: Param[Leaf] = Leaf(i=3)
+    db: Param[Optional[Box]] = None
+
+
+class DboxV2(Dbox):
+    __xpmid__ = "u.dbox"
+    n: Param[Leaf] = Leaf(i=4, s="n")
+
+
+class JobD(Task):
+    __xpmid__ = "u.jobd"
+    x: Param[int] = 0
+    code: Meta[int] = 0
+    cfg: Param[Dbox] = Dbox()
+
+    def execute(self):
+        LOG.append(("body", self))
+
+
 class PreT(LightweightTask):
     __xpmid__ = "u.pre"
     __post_init__ = _post
